@@ -36,8 +36,10 @@ CLAIMED = {
             "Same tie as C04; fact F_wf_cancel_closed sweeps the cancel rows of the generated table."),
     "C11": ("Proved for every evaluator whose failures are expression-evaluation exceptions, every API operation, state and "
             "history: no evaluation failure escapes a conductor API call (structural over the whole model; every evaluator "
-            "call sits under a handler). Tested, not proved: the error entry names the task/transition and the workflow "
-            "becomes failed or stays canceled.",
+            "call sits under a handler); at every handler site the failure is recorded as an error entry naming the task, route "
+            "and transition concerned and is never lost; after any call that recorded one the workflow is failed (or stays "
+            "canceled); the poll that recorded a rendering failure offers nothing and a settled workflow offers only "
+            "clean-up entries (rerun excluded: it filters the log and reopens the workflow).",
             "The hypothesis about the real evaluators (they wrap every failure) is checked on every run: each evaluator "
             "call made by the model reports whether the exception was an ExpressionEvaluationException."),
     "C18": ("Proved for every evaluator, state and history of API calls (all but the persist round trip = C05), also for "
@@ -128,12 +130,15 @@ CLAIMED.update({
 })
 
 CLAIMED.update({
-    "C06": ("PARTIAL. Proved: the offered context is the in-order merge of the snapshots the staged entry points to; "
-            "processing a transition leaves the staged entry of every task other than its target untouched (a publish reaches "
-            "only its target); a published snapshot is never modified later; a delta contains exactly the published names. "
-            "Tested, not proved: every value visible to a task was published by a causal ancestor (taint tokens + ancestry "
-            "through prev pointers). Supersession order at joins is refuted by known finding D11.",
-            "Known finding D11; C16 characterises the merge itself."),
+    "C06": ("Proved: the offered context is the in-order merge of the snapshots the staged entry points to; a publish "
+            "reaches only its target; a published snapshot is never modified later; a delta contains exactly the published "
+            "names; and, as an invariant of every history from a fresh conductor with no hypothesis, every snapshot in a "
+            "task's list is the initial one, or was created by an edge into that task, or is inherited along edges -- so a "
+            "snapshot published on a transition occurs only in tasks reachable from that transition's target (a variable "
+            "published only on a transition that does not lead to the task is never visible to it); the exact recurrence of "
+            "the lists and of the output fold. Supersession order at joins is refuted by known finding D11, which is a "
+            "consequence of that recurrence (Example).",
+            "Known finding D11; C16 characterises the merge itself. Taint monitor as an independent test."),
     "C07": ("PARTIAL. Proved: barrier satisfied iff the number of distinct inbound tasks with a satisfied transition into the "
             "join on the route reaches the requirement (all / count); each inbound task counts once through its own record; "
             "only ready entries are offered; completing (not by cancel) with an unready unsatisfiable join fails the workflow "
